@@ -644,7 +644,7 @@ def eval_entry(rp):
     return fail, key, raised, label, nt, dg
 
 
-def case_entry(name, argseed, np_seed):
+def _case_entry(name, argseed, np_seed):
     rp = {'fn': 'entry', 'entry': name, 'argseed': int(argseed), 'np_seed': int(np_seed)}
     fail, key, raised, label, nt, dg = eval_entry(rp)
     nm = '%s %s' % (name, label)
@@ -769,6 +769,16 @@ def eval_history(rp):
     except AssertionError as e:
         fresh, fresh_ok = e, False
     dims = [_dim_of(cls, c) for c in calls]
+    cached0 = ctor_dim
+    for dd, ok in zip(dims[:-1], accepted[:-1]):
+        if cached0 is None and ok:
+            cached0 = dd
+    if caching:
+        for i, (dd, ok) in enumerate(zip(dims, accepted)):
+            want = ctor_dim if ctor_dim is not None else next((d_ for d_, o_ in zip(dims[:i], accepted[:i]) if o_), None)
+            if ok and want is not None and want != dd:
+                return ('%s with cached dimension %d accepted a fit with feature dimension %d instead of rejecting it (history dims %s)'
+                        % (cls, want, dd, dims[:i])), 'history:accepts:%s' % cls, None, label, False, dg
     if accepted[-1]:
         if not fresh_ok:
             return 'reused trainer accepted a fit the fresh trainer rejects', 'history:%s' % cls, None, label, False, dg
@@ -802,7 +812,7 @@ def eval_history(rp):
     return None, None, coq, label, H >= 1, dg
 
 
-def case_history(cls, argseed):
+def _case_history(cls, argseed):
     rp = {'fn': 'history', 'cls': cls, 'argseed': int(argseed)}
     fail, key, coq, label, nt, dg = eval_history(rp)
     return Case('history ' + label, coq=coq, pred_fail=fail, key=key, nontrivial=nt, digest_=dg, sample={'name': 'history ' + label},
@@ -920,7 +930,7 @@ def eval_split(rp):
     return None, None, 'allR [%s]' % '; '.join(coqs), label + ' compositions=%d' % len(comps), n >= 2, dg
 
 
-def case_split(n, argseed):
+def _case_split(n, argseed):
     rp = {'fn': 'split', 'n': int(n), 'argseed': int(argseed)}
     fail, key, coq, label, nt, dg = eval_split(rp)
     return Case(label, coq=coq, pred_fail=fail, key=key, nontrivial=nt, digest_=dg, sample={'name': label}, replay=rp, kind='split')
@@ -974,10 +984,49 @@ def eval_rng(rp):
     return None, None, label, nt, dg
 
 
-def case_rng(name, argseed, np_seed):
+def _case_rng(name, argseed, np_seed):
     rp = {'fn': 'rng', 'model': name, 'argseed': int(argseed), 'np_seed': int(np_seed)}
     fail, key, label, nt, dg = eval_rng(rp)
     return Case(label, coq=None, pred_fail=fail, key=key, nontrivial=nt, digest_=dg, sample={'name': label}, replay=rp, kind='rng/' + name)
+
+
+# ----------------------------------------------------------------------------- robust case construction
+def _safe(fn, kind):
+    def wrapped(*a, **k):
+        st = a[0].bit_generator.state if a and isinstance(a[0], np.random.Generator) else None
+        try:
+            return fn(*a, **k)
+        except Exception as e:      # an exception escaping the implementation on a path the predicates do not classify
+            import traceback
+            tb = traceback.format_exc()
+            where = [ln.strip() for ln in tb.splitlines() if '/pb_bss/' in ln][-1:] or ['(harness)']
+            rp = {'fn': 'crash', 'kind': kind, 'rng_state': st, 'args': [int(v) if isinstance(v, (int, np.integer)) else v
+                                                                         for v in (a[1:] if st is not None else a)]}
+            return Case('%s crashed' % kind, coq=None, nontrivial=False, digest_=core.digest(kind, repr(rp)[:300]),
+                        pred_fail='%s: unclassified %s: %s at %s' % (kind, type(e).__name__, str(e)[:200], where[0][:160]),
+                        key='crash:%s:%s' % (kind, type(e).__name__), sample={'name': kind + ' crashed'}, replay=rp, kind='crash')
+    return wrapped
+
+
+def _replay_crash(rp):
+    fn = globals()['_case_' + rp['kind']]
+    if rp.get('rng_state') is not None:
+        g = np.random.default_rng(0)
+        g.bit_generator.state = rp['rng_state']
+        args = [g] + list(rp['args'])
+    else:
+        args = list(rp['args'])
+    try:
+        c = fn(*args)
+        return c.pred_fail
+    except Exception as e:          # noqa
+        return '%s: unclassified %s: %s' % (rp['kind'], type(e).__name__, str(e)[:200])
+
+
+case_entry = _safe(_case_entry, 'entry')
+case_history = _safe(_case_history, 'history')
+case_split = _safe(_case_split, 'split')
+case_rng = _safe(_case_rng, 'rng')
 
 
 # -----------------------------------------------------------------------------
@@ -1025,6 +1074,8 @@ def search(rng, tier, hints):
 def replay(payload):
     rp = payload['replay']
     fn = rp['fn']
+    if fn == 'crash':
+        return _replay_crash(rp)
     if fn == 'entry':
         return eval_entry(rp)[0]
     if fn == 'history':
